@@ -224,6 +224,15 @@ def confirm_chain(mod, bins, exm, prop):
         ok, why, nat = CK.confirm(mod, bins, sc2, prop)
         return ok, why, native
     if prop == 'C09':
+        if 'the resumed evaluation cannot complete' in exm['what']:
+            ev2 = [l.split('\t') for l in n2 if l.startswith('E\t')]
+            if any(len(f) > 3 and f[3].startswith(('err:InternalError', 'panic')) for f in ev2):
+                return True, 'reproduced', native
+            if ev2:
+                d = dict(x.split('=', 1) for x in ev2[-1][4:] if '=' in x)
+                if d.get('fin') == '0' and not d.get('ready') and not d.get('running'):
+                    return True, 'reproduced', native
+            return False, 'the resumed evaluation completes natively', native
         ok1 = [e[1] for e in sc1.events if e[0] == 'ok']
         okres = [l.split('\t')[3] for l in n1 if l.startswith('E\t') and l.split('\t')[2] == 'ok']
         succeeded = set(j for j, r in zip(ok1, okres) if r == 'ok')
